@@ -4784,7 +4784,7 @@ class ParameterizedMetaclass(type):
             if super_param.instantiate is True:
                 param.instantiate = True
             super_type = type(super_param)
-            if not issubclass(super_type, p_type):
+            if super_type is not p_type:
                 type_change = True
         del slots['instantiate']
 
